@@ -16,7 +16,7 @@ class C03(ProgramProperty):
             "record's URI-prefix tail) and 6 CURIEs with known prefixes / synonyms / the empty prefix. Phase 2 "
             "feeds the implementation's own answers back: expand_all / expand / standardize_curie of what compress "
             "returned, compress / is_uri / standardize_uri of what expand returned. Non-trivial = a URI written "
-            "with a URI-prefix synonym or a CURIE written with a prefix synonym round-trips.")
+            "with a URI-prefix synonym or a CURIE written with a prefix synonym round-trips. Converters are built directly or through histories (queried, extended with new records and merges, a rejected call) as in C02.")
 
     def gen(self, rng, tier):
         delim = rng.choice(gen.DELIMS)
